@@ -54,6 +54,8 @@ pub struct Acc {
     pub panics: u64,
     /// violations matched against known_findings.txt at the moment they were found: key -> count
     pub known: BTreeMap<String, u64>,
+    /// unknown violations per recogniser class ("-" = unclassified) and universe
+    pub classes: BTreeMap<String, u64>,
 }
 
 static KNOWN: std::sync::OnceLock<Vec<Known>> = std::sync::OnceLock::new();
@@ -105,8 +107,14 @@ impl Acc {
             return;
         }
         self.viol_total += 1;
+        *self.classes.entry(format!("{} / {}", v.class.unwrap_or("-"), v.universe)).or_insert(0) += 1;
+        // keep unclassified ones preferentially: they are what a reader needs to see
         if self.viols.len() < VIOL_CAP {
             self.viols.push(v);
+        } else if v.class.is_none() {
+            if let Some(pos) = self.viols.iter().position(|x| x.class.is_some()) {
+                self.viols[pos] = v;
+            }
         }
     }
     pub fn merge(mut self, mut o: Acc) -> Acc {
@@ -125,6 +133,10 @@ impl Acc {
         for v in o.viols {
             if self.viols.len() < VIOL_CAP {
                 self.viols.push(v);
+            } else if v.class.is_none() {
+                if let Some(pos) = self.viols.iter().position(|x| x.class.is_some()) {
+                    self.viols[pos] = v;
+                }
             }
         }
         for s in o.samples {
@@ -134,6 +146,9 @@ impl Acc {
         }
         for (k, v) in o.known {
             *self.known.entry(k).or_insert(0) += v;
+        }
+        for (k, v) in o.classes {
+            *self.classes.entry(k).or_insert(0) += v;
         }
         self
     }
@@ -266,7 +281,10 @@ impl Report {
         let replay_dir = PathBuf::from(format!("{}/replays/{}", verif_dir(), self.prop));
         let _ = std::fs::create_dir_all(&replay_dir);
         let mut viol_lines = Vec::new();
-        unknown.sort_by(|a, b| (a.input.len(), &a.input).cmp(&(b.input.len(), &b.input)));
+        unknown.sort_by(|a, b| (a.class.is_some(), a.input.len(), &a.input).cmp(&(b.class.is_some(), b.input.len(), &b.input)));
+        for (k, n) in &self.acc.classes {
+            eprintln!("[{}] unknown violations of class/universe {:<60} {}", self.prop, k, n);
+        }
         for (i, v) in unknown.iter().enumerate().take(25) {
             let path = replay_dir.join(format!("viol_{:03}.json", i));
             let j = serde_json::json!({
